@@ -7,7 +7,7 @@ import lib
 import suites
 
 PROP = 'C09'
-LEAN_TARGETS = ['CGV.Props.C09']
+LEAN_TARGETS = ['CGV.Props.C09', 'CGV.Props.C09Step']
 RULE = ('all-atom resolutions of fragmented molecules, of ambiguous/surplus-descriptor descriptions (polymers, rings of '
         'identical units, grafts), of shared-atom descriptions, and all-atom sampler outputs; each resolution step '
         'executed by implementation and Lean model (exact dump incl. hydrogens and their inherited attributes); oracle: '
